@@ -25,7 +25,10 @@ import (
 // If the library turned the stream into another r the shape is simply missed
 // (counted) - the laws below are demanded of whatever it returns.
 
-var sigShapes = []string{"h-1-zero-byte", "h-2-zero-bytes", "Sx-zero-byte", "Sy-zero-byte"}
+// The "lead" shapes are values whose first octet is an ASN.1 tag or a point-format marker (30 SEQUENCE, 04 OCTET
+// STRING / uncompressed point): inside the OCTET STRING h and the BIT STRING S of SM9Signature, and at the head of
+// the raw (h, S) pair, they must be read as content, never as structure.
+var sigShapes = []string{"h-1-zero-byte", "h-2-zero-bytes", "Sx-zero-byte", "Sy-zero-byte", "h-lead-30", "h-lead-04", "Sx-lead-04", "Sx-lead-30"}
 
 const shapeSearchBound = 250000
 
@@ -40,6 +43,14 @@ func shapeHit(shape string, h, s65 []byte) bool {
 		return s65 != nil && s65[1] == 0
 	case "Sy-zero-byte":
 		return s65 != nil && s65[33] == 0
+	case "h-lead-30":
+		return h[0] == 0x30
+	case "h-lead-04":
+		return h[0] == 4
+	case "Sx-lead-04":
+		return s65 != nil && s65[1] == 4
+	case "Sx-lead-30":
+		return s65 != nil && s65[1] == 0x30
 	}
 	return false
 }
